@@ -564,7 +564,7 @@ def finding_matches(entry: dict, v: Violation) -> bool:
 
 
 def write_replay(ctx: Ctx, tag: str, payload: dict) -> Path:
-    d = VERIF / "out" / "replays"
+    d = replay_dir()
     d.mkdir(parents=True, exist_ok=True)
     p = d / f"{ctx.prop}_{tag}.json"
     payload = dict(property=ctx.prop, seed=ctx.seed, tier=ctx.tier, **payload)
@@ -666,6 +666,9 @@ def write_evidence(ctx: Ctx, nviol: int, known_hits: dict):
         property_id=ctx.prop, tier=ctx.tier, seed=ctx.seed, level="proof", coverage=cov,
         assumptions=list(ctx.assumptions), wall_s=round(time.time() - ctx.t0, 2), violations=nviol,
     )
+    if alt_tag():       # a run against another tree is not evidence about /repo
+        (ctx.build / "evidence.json").write_text(json.dumps(ev, indent=1, default=str) + "\n")
+        return
     d = VERIF / "evidence"
     d.mkdir(exist_ok=True)
     (d / f"{ctx.prop}.json").write_text(json.dumps(ev, indent=1, default=str) + "\n")
@@ -680,8 +683,24 @@ def coqchk(ctx: Ctx, vo_logical: str, timeout: int = 900) -> tuple[bool, str]:
     return r.returncode == 0, r.stdout + r.stderr
 
 
+def alt_tag() -> str:
+    """Non-empty when the check is pointed at another tree than /repo (VERIF_REPO: mutant / seeded runs).
+    Such runs get their own build directory, evidence file and replay directory so that they never
+    disturb, or are mistaken for, the checks of /repo itself."""
+    rp = repo_path()
+    if rp == Path("/repo"):
+        return ""
+    return hashlib.sha1(str(rp).encode()).hexdigest()[:8]
+
+
+def replay_dir() -> Path:
+    tag = alt_tag()
+    return VERIF / "out" / ("replays" if not tag else f"replays_alt/{tag}")
+
+
 def make_ctx(prop: str, tier: str, seed: int) -> Ctx:
-    build = VERIF / "build" / prop
+    tag = alt_tag()
+    build = VERIF / "build" / (prop if not tag else f"{prop}@{tag}")
     work = build / "work"
     if work.exists():
         shutil.rmtree(work, ignore_errors=True)
@@ -689,7 +708,7 @@ def make_ctx(prop: str, tier: str, seed: int) -> Ctx:
         if (build / sub).exists():
             shutil.rmtree(build / sub, ignore_errors=True)
     work.mkdir(parents=True, exist_ok=True)
-    rp = VERIF / "out" / "replays"
+    rp = replay_dir()
     if rp.exists() and "VERIF_KEEP_REPLAYS" not in os.environ:
         for f in rp.glob(f"{prop}_*.json"):
             f.unlink()
